@@ -407,7 +407,7 @@ class SO(object):
             F('numOneSecondDumps'): FreshInt('oneSecDumps'), F('needLoadDumpFile'): False,
             F('forceLogCompaction'): FreshBool('forceCompaction'), F('lastSerializedTime'): FreshReal('lastSerTime'),
             F('lastSerializedEntry'): Opt(FreshBool('lseNone'), FreshInt('lastSerEntry')),
-            F('recvTransmission'): RecvBuf(0), F('nodeClass'): NodeClass(), F('consumers'): c.alloc(PList([])),
+            F('recvTransmission'): recv_initial(c, self.mod) if getattr(self, 'mod', None) is not None else RecvBuf(0), F('nodeClass'): NodeClass(), F('consumers'): c.alloc(PList([])),
             F('destroying'): False, F('pipeNotifier'): c.alloc(PObj('PipeNotifier', {})),
             '_idToMethod': self.methods, '_poller': c.alloc(PObj('Poller', {})),
         }
@@ -521,6 +521,61 @@ class RecvBuf(object):
         if isinstance(op, ast.Add) and not swapped and isinstance(other, ChunkData):
             return RecvBuf(self.n + other.n, self.parts + (other,))
         return NotImplemented
+
+
+class RecvList(object):
+    """self.__recvTransmission kept as a list of chunks (heap cell): the same abstraction as RecvBuf, list-shaped"""
+
+    def __init__(self, parts=()):
+        self.parts = tuple(parts)
+
+    def call_method(self, I, ref, name, args, kw):
+        if name == 'append' and isinstance(args[0], ChunkData):
+            I.ctx.setcell(ref, RecvList(self.parts + (args[0],)))
+            return None
+        if name == 'clear':
+            I.ctx.setcell(ref, RecvList(()))
+            return None
+        return NotImplemented
+
+    def joined(self, I):
+        n = 0
+        for p_ in self.parts:
+            n = n + p_.n
+        return RecvBuf(n, self.parts)
+
+    def length(self, I):
+        return len(self.parts)
+
+
+def recv_parts(ctx, v):
+    """the chunks accumulated in self.__recvTransmission, whatever shape the code keeps them in (bytes or a list of chunks)"""
+    if isinstance(v, Ref):
+        v = ctx.cell(v)
+    if isinstance(v, (RecvBuf, RecvList)):
+        return v.parts
+    if isinstance(v, ChunkData):
+        return (v,)
+    if isinstance(v, (str, bytes)) and len(v) == 0:
+        return ()
+    if isinstance(v, PList) and all(isinstance(x, ChunkData) for x in v.items):
+        return tuple(v.items)
+    return None
+
+
+def recv_initial(ctx, mod, parts=()):
+    """pre-state value of __recvTransmission in the shape SyncObj.__init__ gives it: a list if __init__ assigns a list, bytes otherwise"""
+    fn, ci = mod.find('SyncObj.__init__')
+    shape = 'bytes'
+    for n_ in ast.walk(fn):
+        if isinstance(n_, ast.Assign) and any(isinstance(t, ast.Attribute) and t.attr == '__recvTransmission' for t in n_.targets):
+            shape = 'list' if isinstance(n_.value, (ast.List, ast.Call)) and not (isinstance(n_.value, ast.Call) and getattr(n_.value.func, 'id', '') in ('bytes', 'str', 'bytearray')) else 'bytes'
+    if shape == 'list':
+        return ctx.alloc(RecvList(parts))
+    n = 0
+    for p_ in parts:
+        n = n + p_.n
+    return RecvBuf(n, parts)
 
 
 class ChunkData(object):
